@@ -3,7 +3,7 @@
 Require Import List ZArith Bool.
 Require Import IVP.model.Lit IVP.model.Ops IVP.model.Vec IVP.model.Common IVP.model.SolOut
                IVP.gen.Inline.
-Require IVP.model.Dopri5.
+Require IVP.model.Dopri5 IVP.model.Rk23 IVP.model.Rk4 IVP.model.Dop853.
 Import ListNotations.
 Local Open Scope bool_scope.
 
@@ -52,6 +52,9 @@ Section Solve.
 
   Definition interp_fn (m : method) : vec -> F -> F -> F -> nat -> vec :=
     match m with
+    | MRK4 => Rk4.interpolate O
+    | MRK23 => Rk23.interpolate O
+    | MDOP853 => Dop853.interpolate O
     | _ => Dopri5.interpolate O
     end.
 
@@ -98,6 +101,30 @@ Section Solve.
             match Dopri5.solve O Pm (pr_f P) x0 y0 xend (o_rtol opt) (o_atol opt)
                                (handler_cb C) (hs_init O C) fuel with
             | Some r => Some (Dopri5.r_status r, Dopri5.r_stats r, Dopri5.r_log r, Dopri5.r_cb r, Dopri5.r_h r)
+            | None => None
+            end
+        | MDOP853 =>
+            let Pm := Dop853.mkP (dflt opt 0) (dflt opt 1) (dflt opt 2) (dflt opt 3) (dflt opt 4)
+                                 (o_max_step opt) (o_first_step opt) nmax (o_nstiff opt) true in
+            match Dop853.solve O Pm (pr_f P) x0 y0 xend (o_rtol opt) (o_atol opt)
+                               (handler_cb C) (hs_init O C) fuel with
+            | Some r => Some (Dop853.r_status r, Dop853.r_stats r, Dop853.r_log r, Dop853.r_cb r, Dop853.r_h r)
+            | None => None
+            end
+        | MRK23 =>
+            (* defaults: safety_factor, scale_min, scale_max *)
+            let Pm := Rk23.mkP (dflt opt 0) (dflt opt 1) (dflt opt 2)
+                               (o_max_step opt) (o_first_step opt) nmax true in
+            match Rk23.solve O Pm (pr_f P) x0 y0 xend (o_rtol opt) (o_atol opt)
+                             (handler_cb C) (hs_init O C) fuel with
+            | Some r => Some (Rk23.r_status r, Rk23.r_stats r, Rk23.r_log r, Rk23.r_cb r, Rk23.r_h r)
+            | None => None
+            end
+        | MRK4 =>
+            let h := match o_first_step opt with Some h0 => h0 | None => (xend - x0) / L L100 end in
+            match Rk4.solve O (Rk4.mkP nmax true) (pr_f P) x0 y0 xend h
+                            (handler_cb C) (hs_init O C) fuel with
+            | Some r => Some (Rk4.r_status r, Rk4.r_stats r, Rk4.r_log r, Rk4.r_cb r, Rk4.r_h r)
             | None => None
             end
         | _ => None
